@@ -360,5 +360,97 @@ fn prefilter(args: &[String]) {
             }
         }
     }
+    // Generated fonts for the pause functions of the syllabic shapers: a broken cluster makes a pause insert the
+    // dotted circle between two GSUB stages, and a later single substitution acts on that glyph only.  The dotted
+    // circle's glyph id (100) differs from every other glyph of the buffer in the digest's second pattern, so a
+    // digest that was not refreshed after the insertion makes the prefilter skip the lookup.
+    {
+        use crate::fontgen::*;
+        const SCRIPTS: &[(&[u32], &[u32])] = &[
+            (&[0x1B13, 0x1B2C], &[0x1B35, 0x1B36, 0x1B38, 0x1B44, 0x1B00]),
+            (&[0x1780, 0x1781], &[0x17B6, 0x17B7, 0x17D2, 0x17C6]),
+            (&[0x1000, 0x1001], &[0x102D, 0x102F, 0x1031, 0x1039, 0x103A]),
+            (&[0x0915, 0x0928], &[0x093F, 0x0940, 0x094D, 0x0902]),
+            (&[0x0995, 0x09A8], &[0x09BF, 0x09C0, 0x09CD]),
+            (&[0xA98F, 0xA9AA], &[0xA9B4, 0xA9B6, 0xA9C0, 0xA981]),
+            (&[0x0D9A, 0x0DBB], &[0x0DCF, 0x0DD2, 0x0DCA]),
+            (&[0x1A20, 0x1A21], &[0x1A62, 0x1A65, 0x1A60]),
+        ];
+        const TAGS: &[&[u8; 4]] = &[b"pres", b"abvs", b"blws", b"psts", b"haln", b"liga", b"calt", b"clig", b"rlig", b"ccmp", b"locl"];
+        let mut gen_shapes = 0u64;
+        for (si, (letters, marks)) in SCRIPTS.iter().enumerate() {
+            for (ti, tag) in TAGS.iter().enumerate() {
+                for extra_lookup in [false, true] {
+                    let mut spec = FontSpec::basic(210);
+                    let mut cmap: Vec<(u32, u16)> = Vec::new();
+                    for (i, c) in letters.iter().chain(marks.iter()).enumerate() {
+                        cmap.push((*c, 1 + i as u16));
+                    }
+                    cmap.push((0x25CC, 100));
+                    cmap.push((0x20, 20));
+                    cmap.sort();
+                    spec.cmap = cmap;
+                    let mut feats: Vec<(Tag, Vec<u16>)> = vec![(**tag, vec![0])];
+                    let mut lookups = vec![Lookup::one(SubstSubtable::Single2 { coverage: Coverage::Glyphs(vec![100]), substitutes: vec![200] })];
+                    if extra_lookup {
+                        // an unrelated lookup in an earlier stage of the same table
+                        lookups.push(Lookup::one(SubstSubtable::Single2 { coverage: Coverage::Glyphs(vec![30]), substitutes: vec![31] }));
+                        feats.push((if **tag == *b"ccmp" { *b"locl" } else { *b"ccmp" }, vec![1]));
+                        feats.sort();
+                    }
+                    spec.gsub = Some(Layout::with_features(feats, lookups));
+                    let data = build(&spec);
+                    let texts: Vec<Vec<u32>> = vec![
+                        vec![marks[0]],
+                        vec![marks[marks.len() - 1]],
+                        vec![marks[0], letters[0]],
+                        vec![letters[0], marks[0], marks[1 % marks.len()]],
+                        vec![letters[1], 0x20, marks[(si + ti) % marks.len()], letters[0]],
+                        vec![marks[1 % marks.len()], marks[0], letters[1]],
+                        vec![0x25CC, marks[0]],
+                    ];
+                    for t in texts {
+                        let req = Req { text: t.iter().enumerate().map(|(i, c)| (*c, i as u32)).collect(), flags: 3, ..Default::default() };
+                        let d1 = data.clone();
+                        let rq = req.clone();
+                        VERIF_PREFILTER_OFF.store(false, Ordering::SeqCst);
+                        VERIF_DIGEST_STALE.store(0, Ordering::SeqCst);
+                        VERIF_DIGEST_MONITOR.store(true, Ordering::SeqCst);
+                        let on = catch(move || { let f = rustybuzz::Face::from_slice(&d1, 0).unwrap(); shape_req(&f, &rq) });
+                        VERIF_DIGEST_MONITOR.store(false, Ordering::SeqCst);
+                        let stale_n = VERIF_DIGEST_STALE.load(Ordering::SeqCst);
+                        let name = format!("generated:pause-font-script{}-{}{}", si, String::from_utf8_lossy(&tag[..]), if extra_lookup { "-x" } else { "" });
+                        if stale_n > 0 {
+                            stale += 1;
+                            if stale <= 10 {
+                                println!("stale font={} req=[{}] decisions={}", name, fmt_req(&req), stale_n);
+                            }
+                        }
+                        let d2 = data.clone();
+                        let rq = req.clone();
+                        VERIF_PREFILTER_OFF.store(true, Ordering::SeqCst);
+                        let off = catch(move || { let f = rustybuzz::Face::from_slice(&d2, 0).unwrap(); shape_req(&f, &rq) });
+                        VERIF_PREFILTER_OFF.store(false, Ordering::SeqCst);
+                        shapes += 1;
+                        gen_shapes += 1;
+                        if let Ok(o) = &off {
+                            if o.iter().any(|g| g.gid == 200) {
+                                nontrivial += 1;
+                            }
+                        }
+                        if on != off {
+                            diffs += 1;
+                            if diffs <= 10 {
+                                println!("diff font={} req=[{}] on={} off={}", name, fmt_req(&req),
+                                    match &on { Ok(g) => fmt_g(g), Err(e) => format!("panic {}", e) },
+                                    match &off { Ok(g) => fmt_g(g), Err(e) => format!("panic {}", e) });
+                            }
+                        }
+                    }
+                }
+            }
+        }
+        println!("prefilter-generated shapes={}", gen_shapes);
+    }
     println!("prefilter-summary fonts={} shapes={} nontrivial={} diffs={} stale={}", used, shapes, nontrivial, diffs, stale);
 }
